@@ -5,6 +5,10 @@ P2 every removal from the open-bucket list is paired with emission (or a counted
 P3 final flush covers all remaining buckets     P4 nothing else removes / clears / rebinds the list
 P5 completion tested on the touched bucket after every placement; bucket size limit
 P6 the withheld-examples counter follows placements and removals
+P7 expiry and overflow checks are reached on every element
+P8 bounds of a time-series bucket only tighten, each new term is the window of the example being added
+P9 the size limit is part of the acceptance test (with the candidate's length)
+P10 expiry age: released once <running index> - <creation index> >= expiration
 """
 import ast
 
@@ -265,6 +269,40 @@ def run(ctx):
             A.norm_cmp(a[0], a[1], a[2], lambda e: A.is_name(e, CN))) for a in ats)
     rep.ob('P6', K.key(cls, '__iter__', 'overflow-loop:while-withheld>max_buffered_examples'), ok, ov[0] if ov else loop,
            '' if ok else 'buckets must be released while the number of withheld examples exceeds max_buffered_examples')
+    # ---------------- P10 expiry age: a bucket created at element c is released right after element c + expiration
+    # (test `i - c >= self.expiration` with i the running index of the input loop and c the index stored with the bucket)
+    idx_name = None
+    if isinstance(loop.iter, ast.Call) and A.dotted(loop.iter.func) == 'enumerate' and isinstance(loop.target, ast.Tuple) \
+            and isinstance(loop.target.elts[0], ast.Name):
+        idx_name = loop.target.elts[0].id
+    exp_cmps = [n for n in A.walk_stmts(loop.body) if isinstance(n, ast.If) and any(
+        A.is_self_attr(x, 'expiration') for x in ast.walk(n.test)) and any(
+        isinstance(x, ast.BinOp) for x in ast.walk(n.test))]
+    for n in exp_cmps:
+        kind_, ats = A.atoms(n.test)
+        verdict = None
+        for a_ in ats:
+            if len(a_) != 3 or a_[2] is None:
+                continue
+            r = A.norm_cmp(a_[0], a_[1], a_[2], lambda e: A.is_self_attr(e, 'expiration'))
+            if not r:
+                continue
+            op_, age = r          # expiration <op> age
+            age = flow.expand(age, fn)
+            if not (isinstance(age, ast.BinOp) and isinstance(age.op, (ast.Sub, ast.Add))):
+                continue
+            # the stored creation index: bound by a for target over the bucket list
+            created = {nm for l2 in A.walk_stmts(loop.body) if isinstance(l2, ast.For)
+                       for nm in A.name_targets(l2.target)}
+            shape = isinstance(age.op, ast.Sub) and A.is_name(age.left, idx_name or '\0') and isinstance(age.right, ast.Name) \
+                and age.right.id in created
+            verdict = (op_ == '<=' and shape, op_, age)
+        if verdict is None:
+            rep.undecided('P10', K.key(cls, '__iter__', 'expiry-age-test'), n, 'unrecognised form of the expiry test `%s`' % A.short(n.test))
+        else:
+            rep.ob('P10', K.key(cls, '__iter__', 'expiry-age-test:(i-created)>=expiration'), verdict[0], n,
+                   '' if verdict[0] else 'a bucket must be released once `<running index> - <creation index> >= self.expiration`; '
+                   'found `%s`: the bucket lives for a different number of further examples' % A.short(n.test))
     # ---------------- P7 every element passes the expiry and the overflow check
     from ..cfg import CFG as _CFG, normal as _normal
     g = _CFG(fn)
@@ -300,6 +338,73 @@ def run(ctx):
                                '' if ok8 else 'self.%s is assigned %s instead of %s(self.%s, ...): adding an example can loosen '
                                'the window, so a later example outside the padding-rate bound of an earlier member is accepted'
                                % (attr, A.short(v) if v is not None else 'in place', fn_name, attr))
+    # the new term of each bound is the window of the example being added: len(example) * (1 - rate) resp.
+    # len(example) / (1 - rate). (self.max_len is the same thing only after it has been updated with this example.)
+    for mname_ in ('_append', '__init__'):
+        mem_ = ts0.own(mname_)
+        if mem_ is None:
+            continue
+        fnb = mem_.node
+        pars = [a.arg for a in fnb.args.posonlyargs + fnb.args.args][1:]
+        if not pars:
+            continue
+        ex = pars[0]
+
+        def is_len_of_example(e):
+            return isinstance(e, ast.Call) and (A.is_self_attr(e.func, 'len_key') or A.is_name(e.func, 'len_key')) \
+                and len(e.args) == 1 and A.is_name(e.args[0], ex)
+
+        def is_slack(e):
+            return isinstance(e, ast.BinOp) and isinstance(e.op, ast.Sub) and A.int_value(e.left) == 1 \
+                and (A.is_self_attr(e.right, 'max_padding_rate') or A.is_name(e.right, 'max_padding_rate'))
+        stmts_ = [n for n in A.walk_local(fnb) if isinstance(n, ast.Assign)]
+        for n in stmts_:
+            for attr, opt, sym in (('lower_bound', ast.Mult, '*'), ('upper_bound', ast.Div, '/'), ('max_len', None, '')):
+                if not A.is_self_attr(n.targets[0], attr):
+                    continue
+                v = n.value
+                if isinstance(v, ast.Call) and A.dotted(v.func) in ('max', 'min') and len(v.args) == 2 \
+                        and any(A.is_self_attr(a, attr) for a in v.args):
+                    v = [a for a in v.args if not A.is_self_attr(a, attr)][0]
+                elif mname_ == '_append':
+                    continue        # reported by bound-only-tightens
+                ve = flow.expand(v, fnb)
+                # max_len may stand for the example's length once it has been updated (unconditionally, earlier)
+                maxlen_current = any(
+                    A.is_self_attr(m.targets[0], 'max_len') and m.lineno < n.lineno and not flow.guards_of(m, fnb)
+                    and any(is_len_of_example(x) for x in ast.walk(flow.expand(m.value, fnb))) for m in stmts_)
+
+                def is_len(e):
+                    return is_len_of_example(e) or (maxlen_current and A.is_self_attr(e, 'max_len'))
+                depends = any(is_len(x) for x in ast.walk(ve))
+                kk = K.key(ts0, mname_, 'new-%s-from-len(%s)' % (attr, 'example'))
+                if not depends:
+                    rep.ob('P8', kk, False, n,
+                           'the new term `%s` does not depend on the length of the example being added%s: the window is not '
+                           'tightened by this example, so the next example may violate the padding-rate bound against it'
+                           % (A.short(v), ' (self.max_len is only updated later in this function)'
+                              if any(A.is_self_attr(x, 'max_len') for x in ast.walk(ve)) else ''))
+                    continue
+                if opt is None:
+                    ok8 = is_len(ve)
+                    if ok8:
+                        rep.ob('P8', kk, True, n)
+                    elif isinstance(ve, ast.BinOp):
+                        rep.ob('P8', kk, False, n, 'max_len must become max(max_len, len(example)); found `%s`' % A.short(v))
+                    else:
+                        rep.undecided('P8', kk, n, 'unrecognised form of the new maximal length: `%s`' % A.short(v))
+                    continue
+                if isinstance(ve, ast.BinOp) and isinstance(ve.op, (ast.Mult, ast.Div)) and (
+                        is_slack(ve.right) or is_slack(ve.left) or is_len(ve.left) or is_len(ve.right)):
+                    if isinstance(ve.op, ast.Mult) and is_slack(ve.left):
+                        lhs, rhs = ve.right, ve.left
+                    else:
+                        lhs, rhs = ve.left, ve.right
+                    ok8 = isinstance(ve.op, opt) and is_len(lhs) and is_slack(rhs)
+                    rep.ob('P8', kk, ok8, n, '' if ok8 else 'the new %s must be len(example) %s (1 - max_padding_rate); found `%s`'
+                           % (attr, sym, A.short(ve)))
+                else:
+                    rep.undecided('P8', kk, n, 'unrecognised form of the bound: `%s`' % A.short(v))
     ap_ts = ts0.own('_append')
     if ap_ts is not None:
         upd = {a for n in A.walk_local(ap_ts.node) if isinstance(n, ast.Assign) for a in ('lower_bound', 'upper_bound', 'max_len')
